@@ -333,4 +333,42 @@ theorem drain_exactly_once (keep : Bool → Bool) (blocks : List (List (Row α))
 example : drainAll (fun m => !m) [[(1, false), (2, true), (3, false)], [(4, false)], [(5, false), (6, false)]] 2 2 8 { block := 0, row := 0 }
     = [[1, 3], [5, 6]] := by decide
 
+section NotDistinct
+variable {L R K : Type} [DecidableEq K]
+
+/-- `IS NOT DISTINCT FROM` on nullable keys: NULL matches NULL. -/
+def keyMatchND (a b : Option K) : Bool := decide (a = b)
+
+def nlJoinND (kl : L → Option K) (kr : R → Option K) (ls : List L) (rs : List R) : List (L × R) :=
+  ls.flatMap fun l => (rs.filter fun r => keyMatchND (kl l) (kr r)).map fun r => (l, r)
+
+/-- Hash join keyed on an `IS NOT DISTINCT FROM` condition: NULL keys are hashed like any other value
+(`hh` hashes the nullable key) and the row matcher compares with `keyMatchND`. -/
+def hashJoinND (hh : Option K → Nat) (kl : L → Option K) (kr : R → Option K) (ls : List L) (rs : List R) : List (L × R) :=
+  ls.flatMap fun l =>
+    ((rs.filter fun r => hh (kr r) == hh (kl l)).filter fun r => keyMatchND (kl l) (kr r)).map fun r => (l, r)
+
+/-- **Hashing on an IS NOT DISTINCT FROM key is sound for every hash function**: the hash join
+returns exactly the nested-loop join's pairs, NULL keys matching NULL keys (the join back of a
+decorrelated subquery is planned this way since the repair of F37). -/
+theorem hash_eq_nl_not_distinct (hh : Option K → Nat) (kl : L → Option K) (kr : R → Option K) (ls : List L) (rs : List R) :
+    hashJoinND hh kl kr ls rs = nlJoinND kl kr ls rs := by
+  unfold hashJoinND nlJoinND
+  congr 1
+  funext l
+  simp only [List.filter_filter]
+  congr 1
+  apply List.filter_congr
+  intro r _
+  by_cases e : kl l = kr r
+  · simp [keyMatchND, e]
+  · simp [keyMatchND, e]
+
+/-- NULL keys do match each other under IS NOT DISTINCT FROM (and never under `=`). -/
+theorem null_keys_match_not_distinct :
+    nlJoinND (fun x : Option Nat => x) (fun y : Option Nat => y) [none, some 1] [none, some 2] = [(none, none)] ∧
+      nlJoin (fun x : Option Nat => x) (fun y : Option Nat => y) [none, some 1] [none, some 2] = [] := by decide
+
+end NotDistinct
+
 end GlareModel.Props.C06
